@@ -76,7 +76,7 @@ def params(desc):
     D = ("D", "int", 0, None)  # 0 = no explicit id
     K = ("K", "sel", 0, 1)
     if op == "add":
-        ps += [P, Bf, L]
+        ps += [P, Bf, L, ("nid", "bool", None, None)]
         if regime == "R3":
             ps.append(D)
         if typed:
@@ -118,7 +118,7 @@ def params(desc):
     elif op == "meta":
         ps += [S, ("which", "sel", 0, 4), ("mk", "sel", 0, 1), ("V", "int", 0, None), ("pre", "sel", 0, 2)]
     elif op == "filter":
-        ps += [("v%d" % i, "bool", None, None) for i in range(n)]
+        ps += [("v%d" % i, "sel", 0, 2) for i in range(n)]  # 0 reject, 1 accept, 2 SkipBranch
     else:
         raise ValueError(op)
     return ps + first_params(desc)
@@ -262,6 +262,8 @@ def step(ctx, desc, x, pre_hook=None):
                 kw["data_id"] = did
             if typed:
                 kw["kind"] = kind
+            if x.get("nid"):
+                kw["node_id"] = 5000  # an explicit node_id (a refused add must not leave it registered)
             ret = RT(p).add(L, **kw)
         elif op in ("append_child", "prepend_child"):
             p = int(x["p"])
@@ -409,7 +411,16 @@ def step(ctx, desc, x, pre_hook=None):
                     status = ("undoc", "update_meta-with-None")
                 else:
                     status = model.update_meta(mn[s], {key: val}, replace=(which == 2))
-                    ret = nodes[s].update_meta({key: val}, replace=(which == 2))
+                    mine = {key: val}
+                    ret = nodes[s].update_meta(mine, replace=(which == 2))
+                    # the caller's dict stays the caller's: later edits of it, or of
+                    # another node that received the same dict, must not show here
+                    other_i = (s + 1) % n
+                    if other_i != s:
+                        nodes[other_i].update_meta(mine, replace=True)
+                        nodes[other_i].set_meta("zz", 1)
+                        nodes[other_i].clear_meta()
+                    mine["caller"] = 1
             elif which == 3:
                 status = model.clear_meta(mn[s], key)
                 ret = nodes[s].clear_meta(key)
@@ -425,9 +436,14 @@ def step(ctx, desc, x, pre_hook=None):
             vs = [x["v%d" % i] for i in range(n)]
 
             def rpred(nd):
-                return vs[B.token_of(reg, nd)]
+                from nutree import SkipBranch
 
-            status = model.filter(model.root, lambda m_: vs[m_.tok])
+                v = vs[B.token_of(reg, nd)]
+                if v == 2:
+                    raise SkipBranch
+                return v == 1
+
+            status = model.filter(model.root, lambda m_: ("skip" if vs[m_.tok] == 2 else vs[m_.tok] == 1))
             ret = tree.filter(rpred)
         else:
             raise ValueError(op)
